@@ -2,6 +2,9 @@ package main
 
 import (
 	"fmt"
+	"math"
+	"strconv"
+	"strings"
 
 	"github.com/ozanh/ugo"
 	"github.com/ozanh/ugo/token"
@@ -49,6 +52,45 @@ func runC15(kind string, args []*Sexp) *Sexp {
 		a, b := ValueOfSexp(args[1]), ValueOfSexp(args[2])
 		bc := compiled("param (a, b); return a " + tok.String() + " b")
 		return resultSexp(ugo.NewVM(bc).Run(nil, a, b))
+	case "purity":
+		// a result must not change when its operand is used again: b := a + p; c := a + q; b is still a + p
+		run := func(src string) *Sexp {
+			bc := compiled(src)
+			return resultSexp(ugo.NewVM(bc).Run(nil, ValueOfSexp(args[0]), ValueOfSexp(args[1]), ValueOfSexp(args[2])))
+		}
+		r1 := run("param (a, p, q); a = a + p; b := a + p; return b")
+		r2 := run("param (a, p, q); a = a + p; b := a + p; try { c := a + q; d := c + p } catch { }; return b")
+		return L(A("purity"), r1, r2)
+	case "litbinop":
+		// the same operation written with literal operands, compiled with the default options (optimizer on)
+		la, oka := literalOf(ValueOfSexp(args[1]))
+		lb, okb := literalOf(ValueOfSexp(args[2]))
+		if !oka || !okb {
+			return L(A("noliteral"))
+		}
+		op := args[0].Atom
+		if t, ok := tokByName[op]; ok {
+			op = t.String()
+		}
+		bc, err, pan := compileSrc([]byte("return "+la+" "+op+" "+lb), ugo.CompilerOptions{})
+		if pan != nil {
+			return L(A("panic"), A(sanitize(fmt.Sprint(pan))))
+		}
+		if err != nil {
+			// a constant expression that fails is refused with the error it raises
+			msg := firstLine(err.Error())
+			for _, n := range []string{"ZeroDivisionError", "TypeError", "InvalidOperatorError"} {
+				if strings.Contains(msg, n) {
+					return L(A("err"), hexAtom([]byte(n)))
+				}
+			}
+			return L(A("compile-error"), A(sanitize(msg)))
+		}
+		r := resultSexp(ugo.NewVM(bc).Run(nil))
+		if r.Head() == "err" {
+			return L(A("err"), r.List[1])
+		}
+		return r
 	case "equal":
 		return SexpOfValue(ugo.Bool(ValueOfSexp(args[0]).Equal(ValueOfSexp(args[1]))))
 	case "nequal":
@@ -70,4 +112,48 @@ func runC15(kind string, args []*Sexp) *Sexp {
 		return resultSexp(ugo.NewVM(bc).Run(nil, ValueOfSexp(args[1])))
 	}
 	panic("c15: bad kind")
+}
+
+// literalOf renders a scalar value as source text, when the language has a literal for it
+func literalOf(o ugo.Object) (string, bool) {
+	switch v := o.(type) {
+	case ugo.Int:
+		if v < 0 {
+			if v == math.MinInt64 {
+				return "", false
+			}
+			return "(" + strconv.FormatInt(int64(v), 10) + ")", true
+		}
+		return strconv.FormatInt(int64(v), 10), true
+	case ugo.Uint:
+		return strconv.FormatUint(uint64(v), 10) + "u", true
+	case ugo.Float:
+		f := float64(v)
+		if math.IsNaN(f) || math.IsInf(f, 0) {
+			return "", false
+		}
+		s := strconv.FormatFloat(f, 'g', -1, 64)
+		if !strings.ContainsAny(s, ".e") {
+			s += ".0"
+		}
+		if f < 0 || math.Signbit(f) {
+			s = "(" + s + ")"
+		}
+		return s, true
+	case ugo.Char:
+		if v >= 32 && v < 127 && v != '\'' && v != '\\' {
+			return "'" + string(rune(v)) + "'", true
+		}
+		return "", false
+	case ugo.Bool:
+		if v {
+			return "true", true
+		}
+		return "false", true
+	case ugo.String:
+		return strconv.Quote(string(v)), true
+	case *ugo.UndefinedType:
+		return "undefined", true
+	}
+	return "", false
 }
